@@ -201,8 +201,100 @@ pub fn run(data: &[u8], ctx: &mut Ctx) -> Outcome {
         if src.chance(80) {
             ctx.class("chain-of-two");
             let mut n2 = None;
-            return one_step(ctx, &mut src, &e2, &m2, "step2", &mut n2);
+            match one_step(ctx, &mut src, &e2, &m2, "step2", &mut n2) {
+                Outcome::Pass => {}
+                other => return other,
+            }
         }
+    }
+    // drawn last, so that recorded choice sequences keep their meaning
+    if src.chance(44) {
+        return signed_consequence(ctx, &mut src, &e, &m);
+    }
+    Outcome::Pass
+}
+
+/// The "hence" clause: a signature made over the original's digests stays valid for the transformed
+/// envelope. Two keys sign the envelope (with or without metadata); a target set - often inside one
+/// signer's 'signed' assertion - is obscured; every signer whose 'signed' assertion is still there in
+/// full must verify exactly as before, whatever happened to the rest.
+fn signed_consequence(ctx: &mut Ctx, src: &mut Src, e: &Envelope, m: &M) -> Outcome {
+    let signed_pred = M::Known(3).digest();
+    if m.is_obscured() || m.assertions().iter().any(|a| matches!(a.subject(), M::Assertion(p, _) if p.digest() == signed_pred)) {
+        return Outcome::Pass;
+    }
+    let pool = crate::keys::core_pool();
+    let n = 2 + src.below(2);
+    let mut ks: Vec<usize> = Vec::new();
+    while ks.len() < n {
+        let mut i = src.below(pool.sig.len());
+        while ks.contains(&i) {
+            i = (i + 1) % pool.sig.len();
+        }
+        ks.push(i);
+    }
+    let mut signed = e.clone();
+    let mut own: Vec<D32> = Vec::new();
+    for &i in &ks {
+        let md = if src.chance(140) { Some(bc_envelope::SignatureMetadata::new().with_assertion(known_values::NOTE, format!("signer {}", i))) } else { None };
+        let before: BTreeSet<D32> = signed.assertions().iter().map(|a| d32(&a.digest())).collect();
+        signed = nopanic!(ctx, signed.add_signature_opt(&pool.sig[i].private, None, md), "signed", "C02/signed/sign");
+        let new: Vec<D32> = signed.assertions().iter().map(|a| d32(&a.digest())).filter(|d| !before.contains(d)).collect();
+        check!(ctx, new.len() == 1, "signed", "C02/signed/sign", "adding a signature added {} assertions", new.len());
+        own.push(new[0]);
+    }
+    let sm = tryp!(ctx, bridge::read_out(&signed), "signed", "C02/signed/readout");
+    for (j, &i) in ks.iter().enumerate() {
+        let r = nopanic!(ctx, signed.has_signature_from(&pool.sig[i].public).map_err(|x| x.to_string()), "signed", "C02/signed/before");
+        check!(ctx, r == Ok(true), "signed", "C02/signed/before", "signer {} does not verify on the freshly signed envelope: {:?}", j, r);
+    }
+    // targets: the general generators, or a single element inside one signer's 'signed' assertion
+    let reveal = src.chance(70);
+    let t: BTreeSet<D32> = if !reveal && src.chance(150) {
+        let a = sm.assertions().iter().find(|a| a.digest() == own[src.below(own.len())]);
+        let inner: Vec<&M> = a.map(|a| a.elements()).unwrap_or_default();
+        let mut t = BTreeSet::new();
+        if inner.len() > 1 {
+            t.insert(inner[1 + src.below(inner.len() - 1)].digest());
+        }
+        ctx.class("signed:target-inside-a-signature");
+        t
+    } else if reveal {
+        gen::gen_reveal_targets(src, &sm)
+    } else {
+        gen::gen_targets(src, &sm, true)
+    };
+    let action = gen_obs(src);
+    let api = src.below(7);
+    ctx.class(&format!("signed:{}:{:?}", if reveal { "revealing" } else { "removing" }, action));
+    for d in &t {
+        ctx.fingerprint(d);
+    }
+    ctx.fingerprint(&[0x51, reveal as u8, action as u8]);
+    let r = nopanic!(ctx, apply_elide(&signed, &t, reveal, action, api), "signed", "C02/signed/transform");
+    let rm = nopanic!(ctx, check_digests(&r), "signed", "C02/signed/transform");
+    let rm = tryp!(ctx, rm.map_err(|s| format!("after obscuring {} of a signed envelope {}: {}", t.len(), sm.show(), s)), "signed", "C02/signed/transform");
+    check!(ctx, rm.digest() == sm.digest(), "signed", "C02/signed/transform", "obscuring changed the root digest of the signed envelope {}", sm.show());
+    if rm.is_obscured() {
+        return Outcome::Pass;
+    }
+    let mut intact = 0;
+    for (j, &i) in ks.iter().enumerate() {
+        let Some(orig) = sm.assertions().iter().find(|a| a.digest() == own[j]) else { continue };
+        let Some(now) = rm.assertions().iter().find(|a| a.digest() == own[j]) else { continue };
+        if orig.tagged() != now.tagged() {
+            continue;
+        }
+        intact += 1;
+        let k = &pool.sig[i];
+        let r1 = nopanic!(ctx, r.has_signature_from(&k.public).map_err(|x| x.to_string()), "signed", "C02/signed/after");
+        check!(ctx, r1 == Ok(true), "signed", "C02/signed/after", "the signature of signer {} ({}) is untouched, no digest changed, yet it no longer verifies after {:?} of {} target(s): {:?}; before {} ; after {}", j, k.scheme, action, t.len(), r1, sm.show(), rm.show());
+        let r2 = nopanic!(ctx, r.verify_signature_from(&k.public).map(|v| d32(&v.digest())).map_err(|x| x.to_string()), "signed", "C02/signed/after");
+        check!(ctx, r2 == Ok(sm.digest()), "signed", "C02/signed/after", "verify_signature_from for the untouched signer {} after the transformation: {:?}", j, r2);
+    }
+    if intact > 0 && rm.tagged() != sm.tagged() {
+        ctx.class("signed:verified-after-change");
+        ctx.nontrivial = true;
     }
     Outcome::Pass
 }
